@@ -16,5 +16,7 @@ CONSTANTS
   MaxDigits <- SmallMaxDigits
   Extra <- NoExtra
   ExtraSeq <- NoExtraSeq
+  BufCap = 0
+  LosesIntegerDigits = FALSE
 INVARIANTS GrammarTotal FastPathExact AtofAgrees AtoiAgrees RangeRule DigitArith ThresholdRule IntIsFloat
 CHECK_DEADLOCK FALSE
